@@ -17,6 +17,13 @@ CLAIMED = {
              "compared with a list model written from the docstrings and the representation relation is re-established, so operation sequences of any "
              "length are covered for the enumerated sizes; plus exhaustive short programs and the auto-created-storage path.",
         ref="6/C01"),
+    "C02": dict(
+        text="select/insert with a SYMBOLIC time (per-element float64 tensor of rank r and r+1, and a symbolic Python scalar driven through the real "
+             "scalar branch) over symbolic ring contents: for dt in {1.0,0.5,1.3,0.1}, N<=3 (4 thorough), every pointer, offsets 0..2, tolerances "
+             "{0,1e-6,(1e-3),dt/4}, all 6 interpolations and 8 extrapolations, in-place and out-of-place. Oracle piecewise over the grid index k, "
+             "independent of round/ceil/floor/%; rejection iff out of range; frame condition on untouched slots; insert-then-select round trip for "
+             "matching pairs; scalar call == tensor call.",
+        ref="6/C02"),
 }
 
 REASONS = {}
